@@ -1,20 +1,23 @@
 (** C11 - placeholder values reflect the bar state at draw time.
 
-    Transcribes
+    Transcribes (line numbers: /repo HEAD 7d42cff)
       - ProgressStyle::format_state: the loop over the template parts incl. NewLine parts
         (multi-line templates), the key dispatch, the final `if !cur.is_empty()`
-                                                              (src/style.rs:234-396)
-      - push_line / WideElement::expand                       (src/style.rs:399-482)
-      - current_tick_str / get_tick_str / get_final_tick_str  (src/style.rs:174-189)
-      - PaddedStringDisplay (left aligned; ASCII content)     (src/style.rs:727-769)
-      - TabRewriter                                           (src/style.rs:428-435)
+                                                              (src/style.rs:236-400)
+      - push_line / WideElement::expand                       (src/style.rs:403-486)
+      - current_tick_str / get_tick_str / get_final_tick_str  (src/style.rs:176-191)
+      - PaddedStringDisplay (left aligned; ASCII content)     (src/style.rs:731-773)
+      - TabRewriter (src/style.rs:432-439): the writer of the custom keys (style.rs:260) AND,
+        since fix 6ff82af, of the `spinner` arm (style.rs:277-279): a TAB of a tick string is
+        replaced by `style.tab_width` blanks like a TAB of a message / prefix / custom value
       - the state changes, tracker fan-out and draw of every ProgressBar update
-        (src/progress_bar.rs:221-410, src/state.rs:40-149,218-240)
+        (src/progress_bar.rs:167-171,231-300,327-460, src/state.rs:43-152,200-223)
     The formatters (HumanCount, HumanBytes, ..., format_bar, f32/f64 Display) are NOT
     modelled here (C15 / C13 own them): they are the fields of a record [formatters]
     over which every definition is parametric.  The correspondence check instantiates
     the record with a finite table computed by the harness with the REAL public
-    formatters applied to the REAL getters.
+    formatters applied to the REAL getters.  (`progress_chars` rejects a TAB since 6ff82af,
+    style.rs:158-159, so `format_bar` never sees one; C13/C14 own that.)
     Definitions only. *)
 From IndModel Require Export Base.
 From IndGen Require Import Constants.
@@ -50,7 +53,7 @@ Definition dec_text (n : N) : text := uint_text (N.to_uint n).
 
 Definition spaces (n : N) : text := N.iter n (cons 32) [].
 
-(** [s.replace('\t', &" ".repeat(w))]  (state.rs:377, style.rs:433) *)
+(** [s.replace('\t', &" ".repeat(w))]  (state.rs:393, style.rs:437) *)
 Definition expand_tabs (w : N) (t : text) : text :=
   flat_map (fun c => if c =? 9 then spaces w else [c]) t.
 
@@ -60,7 +63,7 @@ Definition expand_tabs (w : N) (t : text) : text :=
 Definition char_width (c : N) : N := if (c <? 32) || (c =? 127) then 0 else 1.
 Definition text_width (t : text) : N := fold_right (fun c a => char_width c + a) 0 t.
 
-(** PaddedStringDisplay { align: Left, truncate: false }  (style.rs:734-769) *)
+(** PaddedStringDisplay { align: Left, truncate: false }  (style.rs:738-773) *)
 Definition pad_left (t : text) (w : N) : text :=
   let cols := text_width t in
   let excess := cols - w in
@@ -91,7 +94,7 @@ Definition trim_end (t : text) : text := rev (drop_ws (rev t)).
 Definition replace0 (by_ : text) (t : text) : text :=
   flat_map (fun c => if c =? 0 then by_ else [c]) t.
 
-(** [expanded.split('\n')] (style.rs:416-424: the loop pushes exactly the pieces of the split) *)
+(** [expanded.split('\n')] (style.rs:420-428: the loop pushes exactly the pieces of the split) *)
 Fixpoint split_nl (t : text) (cur : text) : list text :=
   match t with
   | [] => [rev cur]
@@ -154,7 +157,7 @@ Definition view_of (s : snapshot) : view :=
   {| v_pos := s_pos s; v_len := s_len s; v_finished := s_finished s |}.
 
 (** ------------------------------------------------------------------ keys *)
-(** the arms of [match key.as_str()] in source order (style.rs:260-361) *)
+(** the arms of [match key.as_str()] in source order (style.rs:262-365) *)
 Inductive bkey :=
 | KWideBar | KBar | KSpinner | KWideMsg | KMsg | KPrefix | KPos | KHumanPos | KLen | KHumanLen
 | KPercent | KPercentPrecise | KBytes | KTotalBytes | KDecimalBytes | KDecimalTotalBytes
@@ -198,7 +201,7 @@ Inductive wide := WBar | WMsg.
 
 Definition per_s : text := [47; 115].    (* "/s" *)
 
-(** get_tick_str (style.rs:182-184) / get_final_tick_str (187-189) / current_tick_str (174-179).
+(** get_tick_str (style.rs:184-186) / get_final_tick_str (189-191) / current_tick_str (176-181).
     [idx as usize] is the identity on a 64 bit target. *)
 Definition get_tick_str (ticks : list text) (idx : N) : text :=
   nth (N.to_nat (idx mod (N.of_nat (List.length ticks) - 1))) ticks [].
@@ -210,9 +213,10 @@ Definition current_tick_str (ticks : list text) (s : snapshot) : text :=
 Section Render.
   Variable F : formatters.
   Variable ticks : list text.        (* style.tick_strings *)
+  Variable tab : N.                  (* style.tab_width *)
 
   (** one arm of the match: the text pushed into [buf] and the new value of [wide], if set.
-      [pos] / [len] are the two locals computed before the loop (style.rs:244-245). *)
+      [pos] / [len] are the two locals computed before the loop (style.rs:246-247). *)
   Definition builtin_value (s : snapshot) (b : bkey) (width : option N) : text * option wide :=
     let pos := s_pos s in
     let len := match s_len s with Some l => l | None => pos end in     (* len().unwrap_or(pos) *)
@@ -220,7 +224,10 @@ Section Render.
     match b with
     | KWideBar => ([0], Some WBar)
     | KBar => (f_bar F (o_fraction o) (match width with Some w => w | None => DEFAULT_BAR_WIDTH end), None)
-    | KSpinner => (current_tick_str ticks s, None)
+    | KSpinner =>
+        (* TabRewriter(&mut buf, self.tab_width).write_str(self.current_tick_str(state))
+           (style.rs:277-279, since 6ff82af) *)
+        (expand_tabs tab (current_tick_str ticks s), None)
     | KWideMsg => ([0], Some WMsg)
     | KMsg => (s_message s, None)
     | KPrefix => (s_prefix s, None)
@@ -239,7 +246,7 @@ Section Render.
     | KElapsedPrecise => (f_fdur F (o_elapsed o), None)
     | KElapsed => (f_hdur F (o_elapsed o), None)
     | KPerSec =>
-        (* with a width W the precision of the float is W as well (style.rs:318-333) *)
+        (* with a width W the precision of the float is W as well (style.rs:322-337) *)
         (match width with
          | Some w => f_hfloat F (Some w) (o_per_sec o) ++ per_s
          | None => f_hfloat F None (o_per_sec o) ++ per_s
@@ -262,7 +269,7 @@ Section Render.
 End Render.
 
 (** ------------------------------------------------------------------ custom keys *)
-(** A ProgressTracker: state type T with tick / reset / write (style.rs:779-788); [now] in ns. *)
+(** A ProgressTracker: state type T with tick / reset / write (style.rs:783-792); [now] in ns. *)
 Record tracker_ops (T : Type) := {
   t_tick : T -> view -> N -> T;
   t_reset : T -> view -> N -> T;
@@ -272,8 +279,8 @@ Arguments t_tick {T}.
 Arguments t_reset {T}.
 Arguments t_write {T}.
 
-(** a parsed template part (TemplatePart, style.rs:669-680; alignment Left, no truncation, no
-    styles).  [PNewLine] is what the parser pushes for a '\n' of the template (style.rs:497-506). *)
+(** a parsed template part (TemplatePart, style.rs:673-684; alignment Left, no truncation, no
+    styles).  [PNewLine] is what the parser pushes for a '\n' of the template (style.rs:501-510). *)
 Inductive part := PLit (s : text) | PKey (k : string) (w : option N) | PNewLine.
 
 Record style (T : Type) := {
@@ -309,7 +316,7 @@ Fixpoint split_lines (ps : list part) : list (list part) :=
 
 (** the frame made of the renderings of the template lines: a line that is followed by a NewLine
     is pushed even when it is empty (one empty row), the text after the last NewLine is pushed
-    only if it is not empty (style.rs:387-395) *)
+    only if it is not empty (style.rs:391-399) *)
 Fixpoint join_lines (ls : list (list text)) : list text :=
   match ls with
   | [] => []
@@ -323,16 +330,17 @@ Section FormatState.
   Variable F : formatters.
 
   (** what the Placeholder arm writes into the (cleared) scratch buffer [buf], and the wide
-      element it sets, if any (style.rs:256-363): custom keys shadow the built-in ones, their
-      output goes through TabRewriter *)
+      element it sets, if any (style.rs:258-367): custom keys shadow the built-in ones, their
+      output goes through TabRewriter with the style's tab width - the same width the [spinner]
+      arm hands to its TabRewriter *)
   Definition key_text (sty : style T) (s : snapshot) (k : string) (w : option N)
     : text * option wide :=
     match lookup k (customs sty) with
     | Some tr => (expand_tabs (sty_tab sty) (t_write TO tr (view_of s)), None)
-    | None => key_value F (tick_strings sty) s k w
+    | None => key_value F (tick_strings sty) (sty_tab sty) s k w
     end.
 
-  (** the Placeholder arm (style.rs:248-385): the text appended to [cur] - [buf], padded when a
+  (** the Placeholder arm (style.rs:250-389): the text appended to [cur] - [buf], padded when a
       width is given (no style, left aligned, not truncating) - and the wide element *)
   Definition render_key (sty : style T) (s : snapshot) (k : string) (w : option N)
     : text * option wide :=
@@ -352,7 +360,7 @@ Section FormatState.
     | PNewLine :: _ => (cur, wd)
     end.
 
-  (** WideElement::expand (style.rs:443-482), alignment Left *)
+  (** WideElement::expand (style.rs:447-486), alignment Left *)
   Definition expand_wide (wd : wide) (cur : text) (s : snapshot) (target_width : N) : text :=
     let left := target_width - text_width (replace0 [] cur) in
     match wd with
@@ -363,7 +371,7 @@ Section FormatState.
         replace0 trimmed cur
     end.
 
-  (** push_line (style.rs:399-425): the wide element seen so far, if any, is expanded in [cur];
+  (** push_line (style.rs:403-429): the wide element seen so far, if any, is expanded in [cur];
       the result is split at '\n' *)
   Definition push_line (wd : option wide) (cur : text) (s : snapshot) (target_width : N) : list text :=
     split_nl (match wd with Some w => expand_wide w cur s target_width | None => cur end) [].
@@ -380,25 +388,25 @@ Section FormatState.
         split_nl expanded []
     end.
 
-  (** ---- format_state (style.rs:234-396) on its three locals, exactly as the code runs:
+  (** ---- format_state (style.rs:236-400) on its three locals, exactly as the code runs:
       [cur] (the line being built; taken = emptied by push_line), [buf] (scratch buffer: cleared at
-      the START of every Placeholder arm, style.rs:256, and before the padded message is written
-      in WideElement::Message::expand, style.rs:462; NOT cleared at a NewLine, so the padded
+      the START of every Placeholder arm, style.rs:258, and before the padded message is written
+      in WideElement::Message::expand, style.rs:466; NOT cleared at a NewLine, so the padded
       message of a wide_msg line is still in it when the next line starts), [wide] (set by
       wide_bar / wide_msg, NEVER reset: the element of an earlier line is still the wide element
       of the later lines). *)
 
-  (** TemplatePart::Placeholder (style.rs:248-385) *)
+  (** TemplatePart::Placeholder (style.rs:250-389) *)
   Definition m_placeholder (sty : style T) (s : snapshot) (k : string) (w : option N)
                            (cur buf : text) (wd : option wide) : text * text * option wide :=
-    let buf : text := [] in                                   (* buf.clear()          :256 *)
+    let buf : text := [] in                                   (* buf.clear()          :258 *)
     let '(v, wd') := key_text sty s k w in
-    let buf := buf ++ v in                                    (* every arm appends    :257-363 *)
-    (cur ++ (match w with Some w => pad_left buf w | None => buf end),   (* :365-384 *)
+    let buf := buf ++ v in                                    (* every arm appends    :259-367 *)
+    (cur ++ (match w with Some w => pad_left buf w | None => buf end),   (* :369-388 *)
      buf,
      match wd' with Some x => Some x | None => wd end).
 
-  (** WideElement::expand with the scratch buffer it is handed (style.rs:443-482) *)
+  (** WideElement::expand with the scratch buffer it is handed (style.rs:447-486) *)
   Definition m_expand_wide (wd : wide) (cur buf : text) (s : snapshot) (target_width : N) : text * text :=
     let left := target_width - text_width (replace0 [] cur) in
     match wd with
@@ -416,21 +424,21 @@ Section FormatState.
       match wd with Some w => m_expand_wide w cur buf s target_width | None => (cur, buf) end in
     (split_nl expanded [], buf').
 
-  (** the loop over the parts and the final [if !cur.is_empty()] (style.rs:246-395); the result is
+  (** the loop over the parts and the final [if !cur.is_empty()] (style.rs:248-399); the result is
       what is appended to draw_state.lines *)
   Fixpoint m_format (sty : style T) (s : snapshot) (target_width : N) (ps : list part)
                     (cur buf : text) (wd : option wide) : list text :=
     match ps with
     | [] =>
         match cur with
-        | [] => []                                            (* if !cur.is_empty()   :393 *)
+        | [] => []                                            (* if !cur.is_empty()   :397 *)
         | _ => fst (m_push_line wd cur buf s target_width)
         end
     | PLit l :: r => m_format sty s target_width r (cur ++ l) buf wd
     | PKey k w :: r =>
         let '(cur', buf', wd') := m_placeholder sty s k w cur buf wd in
         m_format sty s target_width r cur' buf' wd'
-    | PNewLine :: r =>                                        (* unconditional push   :387-389 *)
+    | PNewLine :: r =>                                        (* unconditional push   :391-393 *)
         let '(ls, buf') := m_push_line wd cur buf s target_width in
         ls ++ m_format sty s target_width r [] buf' wd        (* mem::take(cur); wide kept *)
     end.
@@ -527,7 +535,7 @@ Section Bar.
   Definition bview (b : bstate T) : view :=
     {| v_pos := b_pos b; v_len := b_len b; v_finished := is_finished (b_status b) |}.
 
-  (** BarState::draw (state.rs:196-219) on a target that accepts every draw *)
+  (** BarState::draw (state.rs:200-223) on a target that accepts every draw *)
   Definition draw (b : bstate T) (e : env) : list text :=
     match b_status b with
     | DoneHidden => []
@@ -541,7 +549,7 @@ Section Bar.
                      customs := map (fun kt => (fst kt, f (snd kt))) (customs (b_style b));
                      template := template (b_style b) |} |}.
 
-  (** update_estimate_and_draw (state.rs:140-149): estimator (not modelled), every tracker is
+  (** update_estimate_and_draw (state.rs:148-157): estimator (not modelled), every tracker is
       ticked with the current state, then a draw *)
   Definition update_estimate_and_draw (b : bstate T) (e : env) : bstate T * option (list text) :=
     let b' := map_trackers (fun t => t_tick TO t (bview b) (e_now e)) b in
@@ -571,17 +579,17 @@ Section Bar.
        b_style := {| tick_strings := tick_strings (b_style b); sty_tab := w;
                      customs := customs (b_style b); template := template (b_style b) |} |}.
 
-  (** BarState::tick (state.rs:135-138) *)
+  (** BarState::tick (state.rs:143-146) *)
   Definition bar_tick (b : bstate T) (e : env) : bstate T * option (list text) :=
     update_estimate_and_draw (with_tick b (sat_add64 (b_tick b) 1)) e.
 
-  (** inc / dec / set_position (progress_bar.rs:233-248,285-291): the position changes
+  (** inc / dec / set_position (progress_bar.rs:243-258,295-301): the position changes
       unconditionally, the tick only if AtomicPosition::allow(now) *)
   Definition pos_update (b : bstate T) (p : N) (e : env) : bstate T * option (list text) :=
     let b' := with_pos b p in
     if e_allowed e then bar_tick b' e else (b', None).
 
-  (** finish_using_style (state.rs:42-69): always followed by draw(true) *)
+  (** finish_using_style (state.rs:43-72): always followed by draw(true) *)
   Definition finish (b : bstate T) (f : fin) (e : env) : bstate T * option (list text) :=
     let b1 := with_status b DoneVisible in
     let to_len (x : bstate T) := match b_len x with Some l => with_pos x l | None => x end in
@@ -598,26 +606,26 @@ Section Bar.
   Definition bstep (b : bstate T) (oe : bop * env) : bstate T * option (list text) :=
     let '(o, e) := oe in
     match o with
-    | OTick => bar_tick b e                                            (* progress_bar.rs:221-230 *)
+    | OTick => bar_tick b e                                            (* progress_bar.rs:231-240 *)
     | OInc d => pos_update b (wadd64 (b_pos b) d) e
     | ODec d => pos_update b (wsub64 (b_pos b) d) e
     | OSetPos p => pos_update b p e
-    | OSetLen l => update_estimate_and_draw (with_len b (Some l)) e    (* state.rs:111-114 *)
-    | OIncLen d =>                                                      (* state.rs:116-121 *)
+    | OSetLen l => update_estimate_and_draw (with_len b (Some l)) e    (* state.rs:112-115 *)
+    | OIncLen d =>                                                      (* state.rs:117-122 *)
         update_estimate_and_draw (with_len b (option_map (fun l => sat_add64 l d) (b_len b))) e
-    | ODecLen d =>                                                      (* state.rs:123-128 *)
+    | ODecLen d =>                                                      (* state.rs:124-129 *)
         update_estimate_and_draw (with_len b (option_map (fun l => sat_sub l d) (b_len b))) e
-    | OUnsetLen => update_estimate_and_draw (with_len b None) e        (* state.rs:106-109 *)
-    | OSetMessage m => update_estimate_and_draw (with_message b m) e   (* progress_bar.rs:327-331 *)
-    | OSetPrefix m => update_estimate_and_draw (with_prefix b m) e     (* progress_bar.rs:317-321 *)
+    | OUnsetLen => update_estimate_and_draw (with_len b None) e        (* state.rs:107-110 *)
+    | OSetMessage m => update_estimate_and_draw (with_message b m) e   (* progress_bar.rs:337-341 *)
+    | OSetPrefix m => update_estimate_and_draw (with_prefix b m) e     (* progress_bar.rs:327-331 *)
     | OFinish f => finish b f e
-    | OResetAll =>                                                      (* state.rs:71-90 *)
+    | OResetAll =>                                                      (* state.rs:74-97 *)
         let b1 := with_status (with_pos b 0) InProgress in
         let b2 := map_trackers (fun t => t_reset TO t (bview b1) (e_now e)) b1 in
         (b2, Some (draw b2 e))
     | OResetEta | OResetElapsed => (b, None)
-    | OForceDraw => (b, Some (draw b e))                                (* progress_bar.rs:439-441 *)
-    | OUpdate p l =>                                                    (* progress_bar.rs:276-282, state.rs:99-104 *)
+    | OForceDraw => (b, Some (draw b e))                                (* progress_bar.rs:456-458 *)
+    | OUpdate p l =>                                                    (* progress_bar.rs:286-292, state.rs:99-104 *)
         let b1 := match p with Some p => with_pos b p | None => b end in
         let b2 := match l with Some l => with_len b1 (Some l) | None => b1 end in
         bar_tick b2 e
@@ -673,6 +681,7 @@ Close Scope string_scope.
 Section Documented.
   Variable F : formatters.
   Variable ticks : list text.
+  Variable tab : N.                  (* the bar's tab width (ProgressBar::with_tab_width / set_tab_width) *)
 
   (** position() and length(); "a missing length renders as the position" *)
   Definition get_u64 (s : snapshot) (g : g_u64) : N :=
@@ -701,8 +710,11 @@ Section Documented.
     | DWideBar => ([0], Some WBar)
     | DWideMsg => ([0], Some WMsg)
     | DSpinner =>
-        (if s_finished s then last ticks []
-         else nth (N.to_nat (s_tick s mod (N.of_nat (List.length ticks) - 1))) ticks [], None)
+        (* the current tick string - the last one once finished -, its tabs shown as [tab]
+           blanks like the tabs of a message or prefix *)
+        (expand_tabs tab
+           (if s_finished s then last ticks []
+            else nth (N.to_nat (s_tick s mod (N.of_nat (List.length ticks) - 1))) ticks []), None)
     | DPrefix => (s_prefix s, None)
     | DMsg => (s_message s, None)
     | DCount g f => (fmt_u64 f (get_u64 s g), None)
@@ -762,7 +774,7 @@ Definition table_formatters (t : ftable) : formatters :=
      f_percent := fun p x => tlookup t 8 x p;
      f_bar := fun x w => tlookup t 9 x w |}.
 
-(** the trackers of the harness: a stateless closure (the blanket impl for Fn, style.rs:796-811:
+(** the trackers of the harness: a stateless closure (the blanket impl for Fn, style.rs:800-815:
     tick and reset do nothing), a logger that records every event, a probe that writes nothing *)
 Inductive event := EvTick (now : N) (v : view) | EvReset (now : N) (v : view).
 Inductive tkind := TClosure | TLogger | TProbe.
@@ -836,3 +848,182 @@ Definition keys_check (c : kcase) : bool :=
             (filter (fun kl : string * htracker => match fst (snd kl) with TLogger => true | _ => false end)
                     (customs (b_style b))))
        (c_logs c).
+
+(** ------------------------------------------------------------------ statement vocabulary *)
+(** Names used in the STATEMENTS of props/C11.v (hypotheses, specification-side values); nothing
+    above computes with them and [keys_check] does not use them.  (They were defined in
+    proofs/KeysProofs.v until round 4: AUDIT2 X7 / AUDIT3 finding 32.)  The last three relate the
+    bar of this file to the C07 model, hence the import. *)
+From IndModel Require Import Pos.
+
+Definition is_some {A} (o : option A) : bool := match o with Some _ => true | None => false end.
+
+(** the same snapshot with another length *)
+Definition with_s_len (s : snapshot) (l : option N) : snapshot :=
+  {| s_pos := s_pos s; s_len := l; s_tick := s_tick s; s_finished := s_finished s;
+     s_message := s_message s; s_prefix := s_prefix s; s_obs := s_obs s |}.
+
+(** ---- parts and lines of a template *)
+Section VocabularyLines.
+  Context {T : Type}.
+  Variable TO : tracker_ops T.
+  Variable F : formatters.
+
+  (** what one part appends to the line *)
+  Definition part_text (sty : style T) (s : snapshot) (p : part) : text :=
+    match p with
+    | PLit l => l
+    | PKey k w => fst (render_key TO F sty s k w)
+    | PNewLine => []
+    end.
+  (** a part of a line that does not set the wide element (in particular: not a NewLine) *)
+  Definition part_narrow (sty : style T) (s : snapshot) (p : part) : Prop :=
+    match p with
+    | PLit _ => True
+    | PKey k w => snd (render_key TO F sty s k w) = None
+    | PNewLine => False
+    end.
+
+  Definition single_line (ps : list part) : Prop := Forall (fun p => p <> PNewLine) ps.
+
+  (** joining template lines again, with NewLine parts between them *)
+  Fixpoint unsplit (segs : list (list part)) : list part :=
+    match segs with
+    | [] => []
+    | [seg] => seg
+    | seg :: rest => seg ++ PNewLine :: unsplit rest
+    end.
+End VocabularyLines.
+
+(** ---- histories *)
+Section VocabularyHistory.
+  Context {T : Type}.
+  Variable TO : tracker_ops T.
+  Variable F : formatters.
+  Variable tw : N.
+
+  (** which calls draw at all *)
+  Definition op_draws (o : bop) (allowed : bool) : bool :=
+    match o with
+    | OInc _ | ODec _ | OSetPos _ => allowed
+    | OResetEta | OResetElapsed => false
+    | _ => true
+    end.
+
+  Definition apply_event (t : T) (ev : bar_event * view * N) : T :=
+    match ev with
+    | (BTick, v, now) => t_tick TO t v now
+    | (BReset, v, now) => t_reset TO t v now
+    | (BNone, _, _) => t
+    end.
+
+  (** the tick / reset events of the bar: the class of the call ([op_event], written from the
+      documentation) with the state right after the call's own update and the call's instant *)
+  Definition step_events (b : bstate T) (oe : bop * env) : list (bar_event * view * N) :=
+    match op_event (fst oe) (e_allowed (snd oe)) with
+    | BNone => []
+    | ev => [(ev, bview (fst (bstep TO F tw b oe)), e_now (snd oe))]
+    end.
+
+  Fixpoint bar_events (b : bstate T) (ops : list (bop * env)) : list (bar_event * view * N) :=
+    match ops with
+    | [] => []
+    | oe :: r => step_events b oe ++ bar_events (fst (bstep TO F tw b oe)) r
+    end.
+
+  Definition on_trackers (f : T -> T) (l : list (string * T)) : list (string * T) :=
+    map (fun kt => (fst kt, f (snd kt))) l.
+
+  (** the spinner counter: one step per tick() / update() / admitted position update *)
+  Fixpoint spins (ops : list (bop * env)) : N :=
+    match ops with
+    | [] => 0
+    | (o, e) :: r => (if op_spins o (e_allowed e) then 1 else 0) + spins r
+    end.
+
+  (** position, length and finished flag as a state of the C07 model (Pos.v), and a call as
+      operations of that model *)
+  Definition fin_kind (f : fin) : finish_kind :=
+    match f with
+    | FinAndLeave => AndLeave
+    | FinWithMessage _ => WithMessage
+    | FinAndClear => AndClear
+    | FinAbandon => Abandon
+    | FinAbandonWithMessage _ => AbandonWithMessage
+    end.
+  Definition to_pops (oe : bop * env) : list pop :=
+    match fst oe with
+    | OTick | OSetMessage _ | OSetPrefix _ | OForceDraw | OSetTabWidth _ => []
+    | OInc d => [Inc d]
+    | ODec d => [Dec d]
+    | OSetPos p => [SetPos p]
+    | OSetLen l => [SetLen l]
+    | OIncLen d => [IncLen d]
+    | ODecLen d => [DecLen d]
+    | OUnsetLen => [UnsetLen]
+    | OFinish f => [Finish (fin_kind f)]
+    | OResetAll => [ResetAll]
+    | OResetEta => [ResetEta]
+    | OResetElapsed => [ResetElapsed]
+    | OUpdate p l =>
+        (match p with Some p => [SetPos p] | None => [] end)
+        ++ (match l with Some l => [SetLen l] | None => [] end)
+    end.
+  Definition proj (b : bstate T) : pstate :=
+    {| pos := b_pos b; len := b_len b; finished := is_finished (b_status b) |}.
+End VocabularyHistory.
+
+(** ---- frames against the documented table *)
+Open Scope string_scope.
+Section VocabularyFrames.
+  Context {T : Type}.
+  Variable TO : tracker_ops T.
+  Variable F : formatters.
+  Variable tw : N.
+
+  (** a part whose value the documentation defines: literal text, or a documented, non-wide,
+      non-shadowed key (per_sec without a width) *)
+  Definition doc_part (sty : style T) (p : part) : Prop :=
+    match p with
+    | PLit _ => True
+    | PKey k w =>
+        lookup k (customs sty) = None /\ In k DOCUMENTED_KEYS
+        /\ k <> "wide_bar" /\ k <> "wide_msg" /\ (k = "per_sec" -> w = None)
+    | PNewLine => False
+    end.
+  (** ... and that value: the documented getter o formatter, left-padded to the width *)
+  Definition doc_text (sty : style T) (s : snapshot) (p : part) : text :=
+    match p with
+    | PLit l => l
+    | PKey k w =>
+        let v := fst (documented F (tick_strings sty) (sty_tab sty) s k w) in
+        match w with Some w => pad_left v w | None => v end
+    | PNewLine => []
+    end.
+
+  (** one template line rendered as a (single-line) template of its own *)
+  Definition line_alone (sty : style T) (s : snapshot) (seg : list part) : list text :=
+    format_state TO F (with_template sty seg) s tw.
+
+  (** the only way a line can see an earlier line: the wide element is never reset, and
+      WideElement::expand replaces EVERY NUL of the line.  A line that has no wide key of its own
+      is [line_ok] when its text contains no NUL (then the carried element finds nothing to
+      replace); a line with a wide key of its own is always [line_ok]. *)
+  Definition line_ok (sty : style T) (s : snapshot) (seg : list part) : Prop :=
+    snd (render_parts TO F sty s seg [] None) = None ->
+    ~ In 0 (fst (render_parts TO F sty s seg [] None)).
+
+  (** a part of a multi-line template whose value the documentation defines *)
+  Definition doc_part_ml (sty : style T) (p : part) : Prop :=
+    match p with
+    | PNewLine => True
+    | _ => doc_part sty p
+    end.
+
+  Definition doc_line (sty : style T) (s : snapshot) (seg : list part) : list text :=
+    match concat (map (doc_text sty s) seg) with
+    | [] => []
+    | line => split_nl line []
+    end.
+End VocabularyFrames.
+Close Scope string_scope.
